@@ -156,3 +156,16 @@ func VerifProjTableImage(t *VerifProjTable) []byte {
 func VerifAffineTableImage(t *VerifAffineTable) []byte {
 	return unsafe.Slice((*byte)(unsafe.Pointer(t)), unsafe.Sizeof(*t))
 }
+
+// VerifTablesImage returns the raw memory of the package-level precomputed tables (for frame checks).
+func VerifTablesImage() [][]byte {
+	return [][]byte{
+		unsafe.Slice((*byte)(unsafe.Pointer(generatorHugeAffineTable)), unsafe.Sizeof(*generatorHugeAffineTable)),
+		unsafe.Slice((*byte)(unsafe.Pointer(generatorOddAffineTable)), unsafe.Sizeof(*generatorOddAffineTable)),
+	}
+}
+
+// VerifScalarImage is the raw limb image of a scalar.
+func VerifScalarImage(s *Scalar) []byte {
+	return append([]byte{}, unsafe.Slice((*byte)(unsafe.Pointer(s)), unsafe.Sizeof(*s))...)
+}
